@@ -311,6 +311,19 @@ def dupTop (S : Schema) (o : DupOpts) (single : Bool) (ancestors sibs : List DNo
       let fl := added.foldl (fun a k => if k.flags.dflt then a else ancDel a) fl0
       [nestParents S (rest.zip (fl.drop 1)) ((p1.setKids kids1).setDflt (fl.headD false))]
 
+/-- `lyd_dup_single / lyd_dup_siblings(node, parent, opts)` with a caller-supplied parent that has children already: every
+    copy (`lyd_dup_r`) is linked into the parent by `lyd_insert_node`; a key is not copied but looked up in the parent.  The
+    `first_llist` fast path of `lyd_dup` (following instances of the (leaf-)list appended with `LYD_INSERT_NODE_LAST`) is taken
+    by the C code only while the previous copy became the last child and the parent held no earlier instance — exactly when
+    appending IS the sorted place; so the result is the one-by-one insertion.  The parent loses `LYD_DEFAULT` when a
+    non-default copy is linked (`lyd_np_cont_dflt_del`). -/
+def dupInto (S : Schema) (o : DupOpts) (single : Bool) (parent : DNode) (sibs : List DNode) : DNode :=
+  let sibs := (if single then sibs.take 1 else sibs).filter fun n => !(S.isKey n.sid)
+  let base := if o.noLyds then Order.bySchema else Order.dflt
+  let copies := sibs.map (dupNode S o)
+  let kids := copies.foldl (fun acc x => insertWith S base acc x) parent.kids
+  (parent.setKids kids).setDflt (parent.flags.dflt && copies.all (·.flags.dflt))
+
 /-! ## addressing nodes by their position in the dump (driver) -/
 
 /-- the node with DFS pre-order index `k`: (its ancestors nearest first, the node and its following siblings) -/
